@@ -135,11 +135,19 @@ func seqTerm(l *LoopSum, elem *Term) *Term {
 // tripCount: N when the loop's continue condition is I < N.
 func tripCount(l *LoopSum) *Term {
 	c := l.Cond
-	if c == nil || c.Op != "cmp" || c.Val != "<" || len(c.Args) != 2 {
+	if c == nil || c.Op != "cmp" || len(c.Args) != 2 {
 		return nil
 	}
-	if s, ok := canonStr(c.Args[0]); ok && s == fmt.Sprintf("(sym:L%d.I)", l.ID) {
-		return c.Args[1]
+	iter := fmt.Sprintf("(sym:L%d.I)", l.ID)
+	switch c.Val {
+	case "<": // I < n
+		if s, ok := canonStr(c.Args[0]); ok && s == iter {
+			return c.Args[1]
+		}
+	case ">": // n > I
+		if s, ok := canonStr(c.Args[1]); ok && s == iter {
+			return c.Args[0]
+		}
 	}
 	return nil
 }
